@@ -45,7 +45,7 @@ def check_filter_table(ctx):
             ctx.undecided('PERM-9', 'filter_table result', where_, 'not modelled: %r' % (out,))
         return
     member = alg.mk_ind('true', mk_fn('isin', P(sym('tname', T_)), B(R_, sym('mname', R_))))
-    rank = mk_fn('argsort', B(R_, mk_fn('argsort', B(R_, sym('mname', R_)))))
+    rank = alg.array_fn('argsort', R_, alg.array_fn('argsort', R_, sym('mname', R_)))
     new = T_ + "'"
     for c, base in (('MODEL_NAME', sym('tname', T_)), ('P1', sym('p1', T_))):
         ref = mk_fn('at', B(new, mk_fn('compress', L(new), B(T_, base), B(T_, member))), P(rank))
